@@ -290,6 +290,20 @@ def smt_check(pc, goal, timeout_ms=None, want_model=None, use_cvc5=True, defs=No
         st = cvc5_check(s, max(2, int(left())))
         if st == 'unsat':
             return 'discharged', 'cvc5-1.0.3', time.time() - t0, None, None
+    if os.environ.get('PYVC_DUMP'):
+        import hashlib
+        try:
+            fq, fg = focused_query(pc, goal, defs)
+            s2 = z3.Solver()
+            for c in fq:
+                s2.add(c)
+            s2.add(z3.Not(fg))
+            txt = s2.to_smt2()
+            with open(os.path.join(os.environ['PYVC_DUMP'], 'undecided-%s.smt2' % hashlib.sha1(txt.encode()).hexdigest()[:10]), 'w') as f:
+                f.write('; goal: %s\n' % fg.sexpr().replace('\n', ' ')[:2000])
+                f.write(txt)
+        except Exception:
+            pass
     return 'undecided', 'z3+cvc5', time.time() - t0, None, reason
 
 
@@ -378,11 +392,13 @@ class FunctionReport:
         self.secs = 0.0
         self.error = None
         self.raise_paths = {}
+        self.return_paths = 0
+        self.has_ensures = False
         self.feas_unknown = 0
 
     def as_dict(self):
         return {'name': self.name, 'file': self.file, 'lines': [self.start, self.end], 'sha256': self.sha256,
-                'paths': self.paths, 'feasible_end_paths': self.feasible_ends, 'out_of_subset': self.oos,
+                'paths': self.paths, 'feasible_end_paths': self.feasible_ends, 'return_paths': self.return_paths, 'has_ensures': self.has_ensures, 'out_of_subset': self.oos,
                 'secs': round(self.secs, 3), 'error': self.error,
                 'obligations': [v.as_dict() for v in self.verdicts]}
 
@@ -390,6 +406,7 @@ class FunctionReport:
 def prove_function(world, make_models, contract, timeout_ms=None, arg_terms_out=None, inner_jobs=1):
     """Symbolically execute contract.fn under contract.requires and check every obligation."""
     rep = FunctionReport(contract)
+    rep.has_ensures = bool(contract.ensures) and not contract.asserts_raise
     t0 = time.time()
     c = contract
     want = {}
@@ -480,6 +497,8 @@ def prove_function(world, make_models, contract, timeout_ms=None, arg_terms_out=
             continue
         if r.outcome in ('return', 'raise'):
             rep.feasible_ends += 1
+            if r.outcome == 'return':
+                rep.return_paths += 1
             if r.outcome == 'raise':
                 rep.raise_paths[r.value.cls.__name__] = rep.raise_paths.get(r.value.cls.__name__, 0) + 1
         for o in r.obligations:
